@@ -184,6 +184,7 @@ void sample_states(const char *where) {
             orc_state_edge(s.idx, old, st, where);
             orc_c08_edge(s.idx, old, st);
             orc_c19_edge(s.idx, old, st);
+            if (st == ST_RUNNING) { s.batch_timer_armed_at = R->now; s.batch_timer_exact = R->cfg.cost_ns == 0; }   // sources are (re)armed on entering RUNNING
             if (st == ST_STOPPED || st == ST_ZOMBIE) {
                 clear_mirrors(s);
                 // messages not yet delivered to this module are discarded
@@ -261,7 +262,10 @@ static void run_script(int slot, int cb, int n) {
     snprintf(key, sizeof key, "m%d.%s.%d", slot, CB_NAMES[cb], n);
     auto it = W->scripts.find(key);
     if (it == W->scripts.end()) return;
-    for (const Op *op : it->second) exec_op(*op, true, slot);
+    for (const Op *op : it->second) {
+        for (auto &f : W->frames) f.script_ops++;
+        exec_op(*op, true, slot);
+    }
 }
 
 static int cb_enter(m_mod_t *self, int cb) {
@@ -1152,7 +1156,7 @@ void exec_op(const Op &op, bool in_cb, int cb_slot) {
         ApiScope a("batch_timeout", m);
         int rc = a.done(m_mod_set_batch_timeout(h, ns));
         sim::tr("batch_timeout", m, op.arg(1), rc);
-        if (rc == 0) { s.batch_timeout = ns; s.batch_changed_gseq = R->gseq; }
+        if (rc == 0) { s.batch_timeout = ns; s.batch_changed_gseq = R->gseq; s.batch_timer_armed_at = R->now; s.batch_timer_exact = R->cfg.cost_ns == 0; }
         return;
     }
     if (n == "tb") {
